@@ -43,7 +43,8 @@ def rtext(rnd):
     for _ in range(rnd.randint(1, 4)):
         parts.append(rnd.choice(["", " ", "\n  ", "\t"]))
         parts.append(rnd.choice(["x", "word", "a&b", "1<2", "é漢", "]]>", "'q\"", "two words", "ü",
-                                "e\u0301", "A\u030a", "\u212b", "\u2126", "\u1100\u1161", "\ufb01", "\u0958", "\u200b", "\ufeff"]))
+                                "e\u0301", "A\u030a", "\u212b", "\u2126", "\u1100\u1161", "\ufb01", "\u0958", "\u200b", "\ufeff",
+                                "&amp;", "&lt;", "x &gt; 0 &amp;&amp; y", "&#38;", "&quot;", "&amp;amp;"]))       # text that SPELLS a reference (written as &amp;amp; ...)
     parts.append(rnd.choice(["", " ", "\n"]))
     return "".join(parts)
 
